@@ -11,6 +11,7 @@ LIB-SSE CODE
 @description: 
 """
 import json
+import os
 import pathlib
 import pickle
 import shutil
@@ -49,8 +50,11 @@ def read_service_meta(sid: str) -> dict:
 
 
 def write_service_meta(sid: str, meta: dict):
-    with open(_PROGRAM_PATH.joinpath(sid).joinpath("service_meta"), "wb") as f:
+    # write to a temporary file and rename it, so that the state file is never seen empty or half-written
+    tmp_path = _PROGRAM_PATH.joinpath(sid).joinpath("service_meta.tmp")
+    with open(tmp_path, "wb") as f:
         pickle.dump(meta, f)
+    os.replace(tmp_path, _PROGRAM_PATH.joinpath(sid).joinpath("service_meta"))
 
 
 def read_encrypted_database(sid: str) -> bytes:
